@@ -44,6 +44,8 @@ class OKPBinding(CryptographyBinding):
 
     @staticmethod
     def import_private_key(obj: OKPDictKey) -> PrivateOKPKey:
+        if obj["crv"] not in PRIVATE_KEYS_MAP:
+            raise ValueError('Invalid crv value: "{}"'.format(obj["crv"]))
         crv_key: t.Type[PrivateOKPKey] = PRIVATE_KEYS_MAP[obj["crv"]]
         d = urlsafe_b64decode(to_bytes(obj["d"]))
         key = crv_key.from_private_bytes(d)
@@ -54,6 +56,8 @@ class OKPBinding(CryptographyBinding):
 
     @staticmethod
     def import_public_key(obj: OKPDictKey) -> PublicOKPKey:
+        if obj["crv"] not in PUBLIC_KEYS_MAP:
+            raise ValueError('Invalid crv value: "{}"'.format(obj["crv"]))
         crv_key: t.Type[PublicOKPKey] = PUBLIC_KEYS_MAP[obj["crv"]]
         x_bytes = urlsafe_b64decode(to_bytes(obj["x"]))
         return crv_key.from_public_bytes(x_bytes)
